@@ -286,6 +286,14 @@ fn run(line: &str) -> String {
                 }
             })
         }
+        "genfull" => {
+            // the complete text Generator::default().generate returns (what the CLI must print)
+            let text = String::from_utf8(unhex(f[1])).unwrap();
+            guarded(move || match fastxdr::Generator::default().generate(&text) {
+                Ok(s) => format!("ok {}", hex(s.as_bytes())),
+                Err(_) => "err".to_string(),
+            })
+        }
         "genrep" => {
             // repeated and interleaved calls on one Generator value
             let n: usize = f[1].parse().unwrap();
